@@ -4,6 +4,6 @@
 p=$1; suf=$2; d=/verif/seeded/$p-$suf
 mkdir -p $d && cp /tmp/agents/$p/patch.diff $d/ && cp -r /tmp/agents/$p/demo $d/ && cp /tmp/agents/$p/NOTES.md $d/
 rm -f $d/demo/goit
-sed -i "s#/tmp/agents/$p#/tmp/seed/$p#g" $d/demo/* $d/NOTES.md 2>/dev/null
+grep -rl "/tmp/agents/$p" $d | xargs -r sed -i "s#/tmp/agents/$p#/tmp/seed/$p#g"
 git -C /repo worktree remove --force /tmp/agents/$p
 ls $d $d/demo | tr '\n' ' '; echo
